@@ -16,7 +16,10 @@ import (
 	"context"
 	"encoding/json"
 	"fmt"
+	"github.com/formancehq/ledger/internal/api/backend"
+	"github.com/formancehq/ledger/verifharness/httpsim"
 	"math/big"
+	"net/http/httptest"
 	"reflect"
 	"strings"
 	"testing"
@@ -347,13 +350,71 @@ func c13EngineWritten(rt *rapid.T, c *evid.Collector) {
 		}
 		fmt.Fprintf(&desc, "%s/key=%v/preview=%v/meta=%d;", kind, p.IdempotencyKey != "", p.DryRun, len(md))
 	}
+	c13JudgeStore(rt, c, store, "engine-written", desc.String())
+}
+
+// c13HTTPWritten: entries written through the HTTP API. Two inputs of a write do not arrive as JSON and are
+// therefore not text the decoder has already made valid: the Idempotency-Key header and the metadata key in
+// the path of the delete routes. Whatever bytes a client puts there, the entry that gets written must read
+// back and re-verify.
+func c13HTTPWritten(rt *rapid.T, c *evid.Collector) {
+	store, commander, stop := enginesim.Standalone()
+	defer stop()
+	be := httpsim.NewFakeBackend()
+	be.Override = func(name string) backend.Ledger {
+		return &httpsim.EngineLedger{FakeLedger: &httpsim.FakeLedger{Name: name}, Commander: commander}
+	}
+	router := httpsim.NewRouter(be, false)
+	keys := []string{"", "plain", "caf\xe9", "\xff\xfe", "k\x80", "\xc3\x28", "tr\xe8s long \xff key", "é", "\ufffd"}
+	pathKeys := []string{"k", "%FF", "caf%E9", "%C3%28", "a%80b", "%EF%BF%BD", "%C3%A9"}
+	n := rapid.IntRange(2, 6).Draw(rt, "hwWrites")
+	var desc strings.Builder
+	// something to annotate
+	if rec := httpsim.Serve(router, "POST", "/api/ledger/v2/l1/transactions", map[string]string{"Content-Type": "application/json"}, `{"postings":[{"source":"world","destination":"a","asset":"USD","amount":5}],"metadata":{"k":"v"}}`); rec.Code >= 300 {
+		harnessError(rt, "cannot create the initial transaction: %d %s", rec.Code, clip(rec.Body.String()))
+	}
+	for i := 0; i < n; i++ {
+		prefix := rapid.SampledFrom([]string{"/api/ledger/v2/l1", "/api/ledger/l1"}).Draw(rt, "hwAPI")
+		hdr := map[string]string{"Content-Type": "application/json"}
+		if ik := rapid.SampledFrom(keys).Draw(rt, "hwIK"); ik != "" {
+			hdr["Idempotency-Key"] = ik + fmt.Sprint(i) // (never a replay)
+		}
+		var method, path, body string
+		switch rapid.IntRange(0, 4).Draw(rt, "hwKind") {
+		case 0:
+			method, path, body = "POST", "/transactions", `{"postings":[{"source":"world","destination":"a","asset":"USD","amount":1}],"metadata":{}}`
+		case 1:
+			method, path, body = "POST", "/accounts/a/metadata", `{"k":"v"}`
+		case 2:
+			method, path, body = "POST", "/transactions/0/metadata", `{"k":"v"}`
+		case 3:
+			method, path = "DELETE", "/accounts/a/metadata/"+rapid.SampledFrom(pathKeys).Draw(rt, "hwPathKey")
+		default:
+			if prefix == "/api/ledger/l1" {
+				method, path, body = "POST", "/transactions", `{"postings":[{"source":"world","destination":"b","asset":"USD","amount":2}],"metadata":{}}`
+			} else {
+				method, path = "DELETE", "/transactions/0/metadata/"+rapid.SampledFrom(pathKeys).Draw(rt, "hwPathKey")
+			}
+		}
+		var rec *httptest.ResponseRecorder
+		if pn := safely(func() { rec = httpsim.Serve(router, method, prefix+path, hdr, body) }); pn != nil {
+			violation(rt, c, "C13/http/panic", "%s %s panicked: %v", method, prefix+path, pn)
+			return
+		}
+		fmt.Fprintf(&desc, "%s %s ik=%q -> %d;", method, prefix+path, hdr["Idempotency-Key"], rec.Code)
+	}
+	c13JudgeStore(rt, c, store, "http-written", desc.String())
+}
+
+// c13JudgeStore applies the store-row and re-hash oracles to every entry a real Commander persisted.
+func c13JudgeStore(rt *rapid.T, c *evid.Collector, store *enginesim.ModelStore, family, writes string) {
 	var prevStore *ledger.ChainedLog
 	for i, e := range store.Entries {
 		cl := e.Log
 		raw, _ := json.Marshal(cl)
 		kind := strings.ToLower(cl.Type.String())
-		c.Case("engine:"+string(raw), true, []string{"family:engine-written", "kind:" + kind, fmt.Sprintf("keyed:%v", cl.IdempotencyKey != "")}, func() any {
-			return map[string]any{"family": "engine-written", "writes": desc.String(), "position": i, "chained": json.RawMessage(raw)}
+		c.Case(family+":"+string(raw), true, []string{"family:" + family, "kind:" + kind, fmt.Sprintf("keyed:%v", cl.IdempotencyKey != "")}, func() any {
+			return map[string]any{"family": family, "writes": writes, "position": i, "chained": json.RawMessage(raw)}
 		})
 		st, err := c13StoreRoundTrip(cl)
 		if err != nil {
@@ -370,7 +431,7 @@ func c13EngineWritten(rt *rapid.T, c *evid.Collector) {
 			return
 		}
 		if !bytes.Equal(re.Hash, cl.Hash) || re.ID.Cmp(cl.ID) != 0 {
-			violation(rt, c, "C13/rehash/"+kind+"/engine-written", "entry %d (%s, written by the engine through: %s): the hash recomputed from the content read back and the previous entry differs from the stored hash\njson=%s", i, kind, desc.String(), raw)
+			violation(rt, c, "C13/rehash/"+kind+"/engine-written", "entry %d (%s, written by the engine through: %s): the hash recomputed from the content read back and the previous entry differs from the stored hash\njson=%s", i, kind, writes, raw)
 			return
 		}
 		prevStore = st
@@ -379,7 +440,7 @@ func c13EngineWritten(rt *rapid.T, c *evid.Collector) {
 
 func TestC13(t *testing.T) {
 	c := evid.New("C13")
-	c.Rule = "generated chains of 1-12 log entries (all 7 kind x target shapes built with the code's constructors; API-format timestamps through ledger.ParseTime, years 0000-9999 with both ends of the range in UTC and with offsets pointing out of it; amounts to 10^40; nil/empty/unicode/HTML/long metadata; references; idempotency keys); one case in ten instead lets a real Commander write 2-8 entries (every kind of write, keyed or not, metadata nil / empty / filled, a quarter of the requests previews that must leave the chain alone) and judges what it persisted. evaluations = log entries judged. Non-trivial = entry that is not a bare new-transaction with one posting, no metadata, no key; distinct = by canonical JSON of the entry."
+	c.Rule = "generated chains of 1-12 log entries (all 7 kind x target shapes built with the code's constructors; API-format timestamps through ledger.ParseTime, years 0000-9999 with both ends of the range in UTC and with offsets pointing out of it; amounts to 10^40; nil/empty/unicode/HTML/long metadata; references; idempotency keys); one case in ten instead lets a real Commander write 2-8 entries (every kind of write, keyed or not, metadata nil / empty / filled, a quarter of the requests previews that must leave the chain alone) and judges what it persisted; one case in fifteen sends 2-6 writes of both API versions through the real routers to a real Commander, with Idempotency-Key headers and metadata keys in delete paths that are arbitrary bytes (not valid UTF-8 among them), and judges what was persisted. evaluations = log entries judged. Non-trivial = entry that is not a bare new-transaction with one posting, no metadata, no key; distinct = by canonical JSON of the entry."
 	c.Assumptions = []string{
 		"PostgreSQL jsonb is emulated by a generic decode (exact numbers) and re-encode; timestamptz by an instant truncated to microseconds returned as time.Time",
 		"log dates are what ledger.Now() yields (UTC, microsecond precision), as in every constructor call of the engine",
@@ -388,6 +449,10 @@ func TestC13(t *testing.T) {
 	runProp(t, c, func(rt *rapid.T) {
 		if rapid.IntRange(0, 9).Draw(rt, "engineWritten") == 0 {
 			c13EngineWritten(rt, c)
+			return
+		}
+		if rapid.IntRange(0, 14).Draw(rt, "httpWritten") == 0 {
+			c13HTTPWritten(rt, c)
 			return
 		}
 		n := rapid.IntRange(1, 12).Draw(rt, "chainLen")
